@@ -172,6 +172,22 @@ where
         let _ = cx.ensure(source_ok, "edges:source-is-not-the-queried-node", || format!("edges({}) yields an edge whose source() is not {}", a, a));
         cx.ensure(same_incident(&es, &want, a, exp.loop_lenient), "edges", || format!("edges({}) = {:?}, expected {:?}", a, es, want))?;
     }
+    // the rest of the Iterator contract (size_hint, count, last, nth, fold) of every iterator the traits hand out
+    {
+        use crate::iterck::adapters;
+        let salt = exp.el.len() * 5 + exp.nodes.len();
+        let e3 = |e: G::EdgeRef| (g.to_index(e.source()), g.to_index(e.target()), (*e.weight()).into());
+        adapters(cx, || g.node_identifiers(), |n| g.to_index(n), cap_n, "node_identifiers", salt)?;
+        adapters(cx, || g.node_references(), |r| g.to_index(r.id()), cap_n, "node_references", salt)?;
+        adapters(cx, || g.edge_references(), e3, exp.el.len() * 2 + 8, "edge_references", salt)?;
+        for (k, &a) in exp.nodes.iter().enumerate() {
+            if (k + salt) % 2 == 0 {
+                let id = g.from_index(back_index(g, back, a));
+                adapters(cx, || g.neighbors(id), |n| g.to_index(n), cap, "neighbors", salt)?;
+                adapters(cx, || g.edges(id), e3, cap, "edges", salt)?;
+            }
+        }
+    }
     Ok(())
 }
 
@@ -212,6 +228,20 @@ where
             }
             let _ = cx.ensure(orient_ok, "edges_directed:queried-node-on-the-wrong-side", || format!("edges_directed({}, {:?}) yields an edge with {} on the wrong side", a, dir, a));
             cx.ensure(same_incident(&es, &want, a, exp.loop_lenient), "edges_directed", || format!("edges_directed({}, {:?}) = {:?}, expected {:?}", a, dir, es, want))?;
+        }
+    }
+    {
+        use crate::iterck::adapters;
+        let salt = exp.el.len() * 3 + exp.nodes.len();
+        let e3 = |e: G::EdgeRef| (g.to_index(e.source()), g.to_index(e.target()), (*e.weight()).into());
+        for (k, &a) in exp.nodes.iter().enumerate() {
+            if (k + salt) % 2 == 1 {
+                let id = g.from_index(back_index(g, back, a));
+                for dir in [Outgoing, Incoming] {
+                    adapters(cx, || g.neighbors_directed(id, dir), |n| g.to_index(n), cap, "neighbors_directed", salt)?;
+                    adapters(cx, || g.edges_directed(id, dir), e3, cap, "edges_directed", salt)?;
+                }
+            }
         }
     }
     Ok(())
@@ -398,7 +428,7 @@ fn fixedbitset_of(n: usize) -> fixedbitset::FixedBitSet {
 }
 
 pub fn case(cx: &mut Cx, rng: &mut Rng) -> R {
-    let nmax = if cx.small { 5 } else if rng.chance(1, 10) { 12 } else { 7 };
+    let nmax = if cx.small { 5 } else if rng.chance(1, if cx.thorough { 40 } else { 150 }) { 40 } else if rng.chance(1, 10) { 12 } else { 7 };
     let abs = gen(rng, &GenOpts::new(nmax));
     cx.log(|| abs.describe());
     cx.note_case(abs.hash(), abs.n >= 3 && abs.m() >= 2);
